@@ -57,7 +57,7 @@ func genCase(prop string) func(t *rapid.T) Case {
 		case "C05":
 			kinds = append(kinds, "setctx", "setroutine", "advance")
 		case "C14":
-			c.Full = true
+			c.Full = rapid.IntRange(0, 2).Draw(t, "full14") != 0 // 1/3: timer callbacks and exits may stay parked across calls
 			behs = []string{"success", "success", "error", "error", "untilcancel", "manual"}
 			kinds = []string{"setctx", "setctx", "setctx", "setroutine", "setroutine", "restart", "restart", "finish", "finish", "advance", "advance", "advance", "waitexited", "waitexited", "cancel", "errsend", "probe"}
 		}
@@ -256,6 +256,7 @@ func body(c *sched.Ctl, cs Case, v *ev.Verdict) {
 	unexpectedSpawn := 0
 	waiterWoken := false
 	recByPtr := map[any]*mRec{}
+	staleTimerSections := 0
 
 	returningNow := func() bool { // hm held: some instance entered, cancelled and not yet returned
 		for _, in := range insts {
@@ -433,7 +434,9 @@ func body(c *sched.Ctl, cs Case, v *ev.Verdict) {
 				for _, rec := range recByPtr {
 					if rec.gen == gen {
 						before := len(m.toks)
-						m.TimerSection(rec)
+						if m.TimerSection(rec) {
+							staleTimerSections++
+						}
 						if len(m.toks) > before {
 							sawRetry = true
 						}
@@ -1004,6 +1007,9 @@ func body(c *sched.Ctl, cs Case, v *ev.Verdict) {
 	}
 	if resultDeviations > 0 {
 		v.Class("mutator-return-value-differs-from-machine")
+	}
+	if staleTimerSections > 0 {
+		v.Class("callback-of-a-stopped-retry-timer-ran")
 	}
 }
 
